@@ -93,7 +93,7 @@ def run(ctx: common.Ctx) -> None:
                 # (2) two boolean options of the live table swapped (seeded sample)
                 bools = [f for f in table if f.get("variants") and f["boolean"]]
                 r = common.rng_for("C09", "pairs", ctx.seed)
-                for _ in range(12 if quick else 150):
+                for _ in range(12 if quick else 100):
                     fa, fb = r.sample(bools, 2)
                     yield {"fn": "vlib.tasks.opts:toggle", "args": {"widx": 0, "flags_a": fa["variants"][0], "flags_b": fb["variants"][0], "config": cfg},
                            "_dest": f"pair:{fa['dest']}+{fb['dest']}", "_opt": f"{fa['opt']} => {fb['opt']}", "_w": 0, "_key": True, "_form": "pair"}
